@@ -25,6 +25,17 @@ bookkeeping* (transposes / `transBatch` permutations, reshape layouts, rotate-ha
 ORT contrib kernels are NOT theorems: they are observed through onnxruntime by `harness/c19.py`.
 Which decision the real code takes, and which attributes it emits, is tied to `OV.Model.C19Fusions` by the
 correspondence stream of the same harness.
+
+**How to read the theorems (audit round 5d).**  The "fused operator" side of every algebraic identity
+(`simplifiedLayerNorm`, the abstract `norm` of skip-normalisation, `mhaScore`, the rotary / cos-sin / GQA layouts, …) is a formula DEFINED IN THIS
+FILE from the operator's documentation — a transcription, like the matched side.  These theorems say the two transcribed
+formulas agree; they are tied to the code by the correspondence stream and to onnxruntime by the numeric search only.
+Some theorems are deliberately small records of which guard the transcribed check contains (`bias_gelu`'s first conjunct
+is reflexive, `gqa_mask_not_consulted` is `rfl`, `instance_to_group_check_sound`, `extract_dim_needs_unit_step`,
+`rms_guards` unfold one Boolean).  `…_prefix_refuted` theorems evaluate the PRE-FIX restatement of a rule (kept behind a
+`fix… := false` field or a `…V false` variant) on the finding's witness, mostly by a single `decide`: they record what
+the old decision was; only `fused_matmul_transpose_prefix_refuted`, `check_shape_sound_full_refuted` and
+`second_application_scale_bias_prefix_refuted` refute a universally quantified statement by a counterexample.
 -/
 namespace OV.Props.C19
 open OV.C19
@@ -1100,8 +1111,10 @@ end CosSinCache
 
 /-! ## Decisions: facts about the transcribed checks -/
 
-/-- **`softmax_axis`**: the upcast-removal rule fires exactly for `float16 → Cast(float) → Softmax →
-Cast(float16)`, and then keeps the node's own `axis` attribute (or its absence). -/
+/-- **`softmax_axis`** (one direction only): if the transcribed upcast-removal rule fires, the types were
+`float16 → Cast(float) → Softmax → Cast(float16)`.  The statement does not constrain `ax`: that the emitted node keeps
+the matched node's own `axis` attribute (or its absence) is how `softmax` is written, and is tied to the code by the
+`softmax` correspondence stream and the numeric search (seeded change C19-12), not proved here. -/
 theorem softmax_axis (dt up down : Nat) (ax : Option Int) :
     (softmax dt up down ax ≠ "count=0" → dt = 10 ∧ up = 1 ∧ down = 10) := by
   intro h
@@ -1369,7 +1382,8 @@ theorem isclose_exact_is_equality (a b : K) : iscloseG a b 0 0 = true ↔ a = b 
       exact sub_eq_zero.mp (abs_nonpos_iff.mp h)
   · intro h; exact Or.inl h
 
-/-- **Exact acceptance interval.**  For a positive reference `b` (the default scale `1/sqrt(Dh)`, or a positive
+/-- **Exact acceptance interval** (exact ordered-field arithmetic; side conditions `hb hr0 hr1 ha0 ha` are part of the
+statement).  For a positive reference `b` (the default scale `1/sqrt(Dh)`, or a positive
 pattern literal), `0 ≤ rel < 1` and `abs ≤ rel·b` (with the code's 1e-5 / 1e-8: `b ≥ 1e-3`, i.e. `Dh ≤ 10⁶`), the test
 accepts EXACTLY `b·(1-rel) ≤ a ≤ b/(1-rel)` — for every `a`, non-positive ones included (they are refused). -/
 theorem isclose_acceptance_interval (a b rel abs : K) (hb : 0 < b) (hr0 : 0 ≤ rel) (hr1 : rel < 1)
@@ -1407,7 +1421,8 @@ theorem isclose_acceptance_interval (a b rel abs : K) (hb : 0 < b) (hr0 : 0 ≤ 
       have : abs ≤ rel * a := le_trans ha (by nlinarith)
       rw [max_eq_left this]; nlinarith
 
-/-- **Soundness bound of dropping the `scale` attribute**: when the SDPA rule decides that the matched scale `a` "is" the
+/-- **Soundness bound of dropping the `scale` attribute** (same side conditions as `isclose_acceptance_interval`: `0 < b`,
+`0 ≤ rel < 1`, `0 ≤ abs ≤ rel·b`; exact arithmetic, not IEEE): when the SDPA rule decides that the matched scale `a` "is" the
 default `b` and emits no attribute (ORT then scales by `b`), every pre-softmax score `a·x` moves by at most
 `rel/(1-rel) · b · |x|` (relative 1.00001e-5 with the code's constants — below the f32 comparison tolerance). -/
 theorem sdpa_default_scale_error_bound (a b rel abs x : K) (hb : 0 < b) (hr0 : 0 ≤ rel) (hr1 : rel < 1)
